@@ -8,6 +8,7 @@ import (
 
 	simplefixgo "github.com/b2broker/simplefix-go"
 	"github.com/b2broker/simplefix-go/session"
+	"github.com/b2broker/simplefix-go/session/messages"
 	fixgen "github.com/b2broker/simplefix-go/tests/fix44"
 	"github.com/b2broker/simplefix-go/utils"
 	"pgregory.net/rapid"
@@ -34,6 +35,10 @@ type C19Case struct {
 	Script
 	Handlers      []HSpec `json:"handlers"`
 	EventHandlers int     `json:"event_handlers"`
+	// the application removes one of its own handlers (Remove...Handler with the id it was given)
+	// right before the send step RemoveAt; -1: no removal
+	RemoveHandler int    `json:"remove_handler"`
+	RemoveAt      string `json:"remove_at,omitempty"`
 }
 
 func genC19(t *rapid.T) *C19Case {
@@ -64,6 +69,7 @@ func genC19(t *rapid.T) *C19Case {
 		c.Handlers = append(c.Handlers, h)
 	}
 	c.EventHandlers = rapid.IntRange(0, 3).Draw(t, "nEvent")
+	c.RemoveHandler = -1
 	g := &hgen{t: t, cfg: cfg, inSeq: 1}
 	c.Steps = append(c.Steps, rig.Step{Op: "in", In: g.goodLogon(0)})
 	n := rapid.IntRange(1, 30).Draw(t, "nSteps")
@@ -87,6 +93,18 @@ func genC19(t *rapid.T) *C19Case {
 		}
 	}
 	c.MaxHB = g.maxHB
+	if len(c.Handlers) > 0 && rapid.IntRange(0, 3).Draw(t, "removes") == 0 {
+		var sends []string
+		for _, st := range c.Steps {
+			if st.Op == "send" {
+				sends = append(sends, st.ID)
+			}
+		}
+		if len(sends) > 0 {
+			c.RemoveHandler = rapid.IntRange(0, len(c.Handlers)-1).Draw(t, "removeHandler")
+			c.RemoveAt = rapid.SampledFrom(sends).Draw(t, "removeAt")
+		}
+	}
 	return c
 }
 
@@ -120,8 +138,12 @@ func textOf(msg simplefixgo.SendingMessage) (string, bool) {
 
 func checkC19(c *C19Case, rec *evid.Rec) (vs []pbt.Violation) {
 	calls := make([]int, len(c.Handlers))
+	ids := make([]int64, len(c.Handlers))
+	var hRef *simplefixgo.DefaultHandler
+	var logRef *rig.EventLog
 	register := func(before bool) func(h *simplefixgo.DefaultHandler, log *rig.EventLog) {
 		return func(h *simplefixgo.DefaultHandler, log *rig.EventLog) {
+			hRef, logRef = h, log
 			for i := range c.Handlers {
 				i := i
 				hs := c.Handlers[i]
@@ -133,7 +155,7 @@ func checkC19(c *C19Case, rec *evid.Rec) (vs []pbt.Violation) {
 					mt = simplefixgo.AllMsgTypes
 				}
 				if hs.Dir == "out" {
-					h.HandleOutgoing(mt, func(msg simplefixgo.SendingMessage) bool {
+					ids[i] = h.HandleOutgoing(mt, func(msg simplefixgo.SendingMessage) bool {
 						if hs.Modify {
 							if !(hs.Body && setText(msg, fmt.Sprintf("MOD%d", i))) {
 								msg.HeaderBuilder().SetFieldTargetCompID(fmt.Sprintf("MOD%d", i))
@@ -151,7 +173,7 @@ func checkC19(c *C19Case, rec *evid.Rec) (vs []pbt.Violation) {
 						return !refuse
 					})
 				} else {
-					h.HandleIncoming(mt, func(data []byte) bool {
+					ids[i] = h.HandleIncoming(mt, func(data []byte) bool {
 						log.Add(rig.Event{Kind: "handler:in", Name: fmt.Sprint(i), Bytes: append([]byte(nil), data...)})
 						return true
 					})
@@ -160,6 +182,24 @@ func checkC19(c *C19Case, rec *evid.Rec) (vs []pbt.Violation) {
 		}
 	}
 	hooks := &rig.Hooks{BeforeRun: register(true)}
+	if c.RemoveHandler >= 0 {
+		hooks.AppMessage = func(st *rig.Step) messages.Message {
+			if st.ID == c.RemoveAt && hRef != nil {
+				hs := c.Handlers[c.RemoveHandler]
+				mt := hs.Type
+				if mt == "ALL" {
+					mt = simplefixgo.AllMsgTypes
+				}
+				if hs.Dir == "out" {
+					_ = hRef.RemoveOutgoingHandler(mt, ids[c.RemoveHandler])
+				} else {
+					_ = hRef.RemoveIncomingHandler(mt, ids[c.RemoveHandler])
+				}
+				logRef.Add(rig.Event{Kind: "handler-removed", Name: fmt.Sprint(c.RemoveHandler)})
+			}
+			return rig.NewApp(st.ID)
+		}
+	}
 	hooks.AfterRun = func(h *simplefixgo.DefaultHandler, s *session.Session, log *rig.EventLog) {
 		register(false)(h, log)
 		log.Add(rig.Event{Kind: "late-handlers-registered"})
@@ -192,6 +232,31 @@ func checkC19(c *C19Case, rec *evid.Rec) (vs []pbt.Violation) {
 		}
 	}
 	evs := tr.Log.Since(0)
+	// once the application has removed one of its handlers, that handler may or may
+	// not be called any more (the property says nothing about removal); every other
+	// handler, the session's own included, must go on as before
+	removedAt := -1
+	for _, e := range evs {
+		if e.Kind == "handler-removed" {
+			removedAt = e.Order
+		}
+	}
+	dropRemoved := func(list []int, at int) []int {
+		if removedAt < 0 || at < removedAt {
+			return list
+		}
+		var out []int
+		for _, i := range list {
+			if i != c.RemoveHandler {
+				out = append(out, i)
+			}
+		}
+		return out
+	}
+	anyModify := false
+	for _, hs := range c.Handlers {
+		anyModify = anyModify || hs.Modify
+	}
 	// --- outbound: group by sequence number ---
 	type attempt struct {
 		saveOK, saveFail bool
@@ -248,6 +313,16 @@ func checkC19(c *C19Case, rec *evid.Rec) (vs []pbt.Violation) {
 			// saved under its own sequence number (also when a retransmission is re-saved)
 			if own, ok := ref.Lookup(e.Bytes, rig.TagMsgSeqNum); ok && own != fmt.Sprint(e.Seq) && len(vs) == 0 {
 				vs = append(vs, pbt.V("saved-under-wrong-number", "a message carrying MsgSeqNum %s was saved under number %d: %s", own, e.Seq, ref.Show(e.Bytes)))
+			}
+			// ... and under the session's own identity: the Sender/Target of the StorageID are
+			// the identifiers the message itself carries (not judged when a handler rewrites
+			// identifiers before the store sees the message)
+			if !anyModify && len(vs) == 0 {
+				s49, _ := ref.Lookup(e.Bytes, rig.TagSenderCompID)
+				t56, _ := ref.Lookup(e.Bytes, rig.TagTargetCompID)
+				if e.Name != s49+"|"+t56 {
+					vs = append(vs, pbt.V("saved-under-wrong-identity", "message #%d carrying SenderCompID %q / TargetCompID %q was saved under the StorageID (sender|target) %q", e.Seq, s49, t56, e.Name))
+				}
 			}
 			a := get(e.Seq)
 			if firstWire[e.Seq] {
@@ -332,6 +407,7 @@ func checkC19(c *C19Case, rec *evid.Rec) (vs []pbt.Violation) {
 			}
 			_ = k
 		}
+		got, want = dropRemoved(got, at), dropRemoved(want, at)
 		// got must be a prefix of want (complete unless refused / save failed)
 		for k := range got {
 			if k >= len(want) || got[k] != want[k] {
@@ -425,6 +501,7 @@ func checkC19(c *C19Case, rec *evid.Rec) (vs []pbt.Violation) {
 				got = append(got, atoi(f.Name))
 			}
 		}
+		got, want = dropRemoved(got, e.Order), dropRemoved(want, e.Order)
 		if fmt.Sprint(got) != fmt.Sprint(want) {
 			vs = append(vs, pbt.V("incoming-handler-order", "inbound %s was offered to incoming handlers %v, expected %v (all-types in registration order, then the type's)", typ, got, want))
 		}
@@ -464,6 +541,9 @@ func checkC19(c *C19Case, rec *evid.Rec) (vs []pbt.Violation) {
 			rec.Hist("modifying-outgoing-handler")
 			break
 		}
+	}
+	if removedAt >= 0 {
+		rec.Hist("application-removes-a-handler")
 	}
 	rec.Hist(fmt.Sprintf("out-handlers=%d", outPool))
 	rec.Hist(fmt.Sprintf("in-handlers=%d", inPool))
